@@ -116,12 +116,20 @@ C_DRIVER = r'''
 int bx_exc;
 unsigned long g_draws;
 static double pre[4096]; static int npre, kpre; static unsigned long long lcg;
-double bx_draw(bx_prng *p) {
+static const char *target_fn = 0;          /* 'R' tasks: scripted deviates go to draws made in this function only */
+static double rec[65536]; static int nrec;
+double bx_draw_at(bx_prng *p, const char *fn) {
+  double u;
   g_draws++;
-  if (kpre < npre) return pre[kpre++];
-  lcg = lcg * 6364136223846793005ULL + 1442695040888963407ULL;
-  return ((lcg >> 11) + 0.5) * (1.0 / 9007199254740992.0);
+  if (kpre < npre && (target_fn == 0 || strcmp(fn, target_fn) == 0)) u = pre[kpre++];
+  else {
+    lcg = lcg * 6364136223846793005ULL + 1442695040888963407ULL;
+    u = ((lcg >> 11) + 0.5) * (1.0 / 9007199254740992.0);
+  }
+  if (nrec < 65536) rec[nrec++] = u;
+  return u;
 }
+#define bx_draw(p) bx_draw_at((p), __func__)
 int bx_ext_gsl_sf_lngamma_complex_e(double zr, double zi, bx_gsl_sf_result *lnr, bx_gsl_sf_result *arg) {
   gsl_sf_result a, b; int st = gsl_sf_lngamma_complex_e(zr, zi, &a, &b);
   lnr->val = a.val; lnr->err = a.err; arg->val = b.val; arg->err = b.err; return st;
@@ -148,7 +156,7 @@ int main(int argc, char **argv) {
   while (fgets(line, sizeof line, f)) {
     char kind; static char name[64]; int level = 0, mode = 0, nev = 1; unsigned long long seed = 1; int off = 0;
     double ebb1 = -1, ebb2 = -1;
-    npre = 0; kpre = 0;
+    npre = 0; kpre = 0; target_fn = 0;
     if (line[0] == 'B') { sscanf(line, "%c %63s %d %llu", &kind, name, &nev, &seed); }
     else if (line[0] == 'D') { sscanf(line, "%c %63s %d %d %d %llu %lf %lf", &kind, name, &level, &mode, &nev, &seed, &ebb1, &ebb2); }
     else if (line[0] == 'S' || line[0] == 'T') {
@@ -158,10 +166,18 @@ int main(int argc, char **argv) {
       char *p = line + off;
       for (int i = 0; i < nd; i++) pre[npre++] = strtod(p, &p);
       nev = 1;
+    } else if (line[0] == 'R' || line[0] == 'Q') {
+      /* R <name> <targetfn> <seed> <nd> d..      background; Q <name> <level> <mode> <targetfn> <seed> <nd> d..   DBD */
+      int nd = 0; static char tf[128];
+      if (line[0] == 'R') sscanf(line, "%c %63s %127s %llu %d%n", &kind, name, tf, &seed, &nd, &off);
+      else sscanf(line, "%c %63s %d %d %127s %llu %d%n", &kind, name, &level, &mode, tf, &seed, &nd, &off);
+      char *p = line + off;
+      for (int i = 0; i < nd; i++) pre[npre++] = strtod(p, &p);
+      target_fn = tf; nev = 1;
     } else continue;
-    lcg = seed;
+    lcg = seed; nrec = 0;
     printf("T %s", line);
-    int dbd = (line[0] == 'D' || line[0] == 'T');
+    int dbd = (line[0] == 'D' || line[0] == 'T' || line[0] == 'Q');
     static struct bbpars pars;
     struct event ev; bx_prng rng; rng.idx = 0;
     memset(&ev, 0, sizeof ev); ev._generator_.s = "";
@@ -180,9 +196,12 @@ int main(int argc, char **argv) {
     for (int i = 0; i < nev; i++) {
       event__reset(&ev);
       g_draws = 0; bx_exc = 0;
+      if (target_fn) nrec = 0;
       genbbsub(&rng, &ev, dbd ? 1 : 2, &nm, level, mode, 1, &ier, &pars);
       dump(&ev, g_draws, bx_exc);
+      if (target_fn) { printf("U %d", nrec); for (int k = 0; k < nrec; k++) printf(" %.17g", rec[k]); printf("\n"); }
     }
+    target_fn = 0;
   }
   return 0;
 }
